@@ -156,6 +156,13 @@ class ProgGen:
                 out.append(a)
         return out, latvars
 
+    def lat_value(self, ty, bound):
+        """a value of lattice type `ty` to compare the lattice column of a lower-stratum lattice with (cfg.bind_lat_col)"""
+        k = latkind_of(ty)
+        if bound and self.rng.random() < 0.5:
+            return k.from_ints(self.rng, list(bound), self.cfg.dom)
+        return k.const(self.rng, self.cfg.dom)
+
     def const_arg(self):
         """a constant column of an aggregated / negated clause: a literal, or (half of the time) a bare identifier naming a
         `const` item in scope (VC<n>: i32 = n, emitted by vgen/emit.py) - an expression, not a rule variable"""
@@ -171,6 +178,9 @@ class ProgGen:
         if not cands:
             return None, []
         relname = rng.choice(cands)
+        lat_cands = [n for n in cands if self.rels[n].is_lat]
+        if getattr(cfg, 'bind_lat_col', 0) and lat_cands and rng.random() < 0.7:
+            relname = rng.choice(lat_cands)
         rel = self.rels[relname]
         agg = rng.choice(cfg.aggs)
         need = {'count': 0, 'not': 0, 'sum_prod': 2}.get(agg, 1)
@@ -188,6 +198,8 @@ class ProgGen:
                 v = fresh.new(rng)
                 args.append(AVar(v))
                 bvars.append(v)
+            elif is_latcol and getattr(cfg, 'bind_lat_col', 0) and rng.random() < cfg.bind_lat_col:
+                args.append(AExpr(self.lat_value(t, bound)))
             elif is_latcol or not isinstance(t, T.IntTy):
                 args.append(AWild())
             else:
@@ -220,10 +232,16 @@ class ProgGen:
         rng, cfg = self.rng, self.cfg
         joinable = [b for b in bound if b not in nj]
         relname = rng.choice(lower)
+        lat_cands = [n for n in lower if self.rels[n].is_lat]
+        if getattr(cfg, 'bind_lat_col', 0) and lat_cands and rng.random() < 0.7:
+            relname = rng.choice(lat_cands)
         rel = self.rels[relname]
         args = []
         for i, t in enumerate(rel.tys):
             is_latcol = rel.is_lat and i == len(rel.tys) - 1
+            if is_latcol and getattr(cfg, 'bind_lat_col', 0) and rng.random() < cfg.bind_lat_col:
+                args.append(AExpr(self.lat_value(t, bound)))
+                continue
             if is_latcol or not isinstance(t, T.IntTy):
                 args.append(AWild())
                 continue
